@@ -4,11 +4,14 @@ import (
 	"flag"
 	"fmt"
 	"os"
+	"runtime/debug"
+	"runtime/pprof"
 
 	"gosx/sx"
 )
 
 func main() {
+	debug.SetGCPercent(400)
 	if len(os.Args) < 2 {
 		fmt.Fprintln(os.Stderr, "usage: vcheck dev <harness> | run <prop> ...")
 		os.Exit(2)
@@ -24,7 +27,13 @@ func main() {
 		trace := fs.Bool("trace", false, "")
 		maxp := fs.Int("maxpaths", 0, "")
 		tier := fs.Int("tier", 0, "")
+		prof := fs.String("cpuprofile", "", "")
 		fs.Parse(os.Args[3:])
+		if *prof != "" {
+			f, _ := os.Create(*prof)
+			pprof.StartCPUProfile(f)
+			defer pprof.StopCPUProfile()
+		}
 		eng, err := sx.Load("/repo", map[string]string{".": "/verif/harness/bexpr", "grammar": "/verif/harness/grammar"})
 		if err != nil {
 			fmt.Fprintln(os.Stderr, err)
